@@ -818,6 +818,7 @@ func main() {
 			run("unrestricted/side-mutant-orphan-cascade", cat(g.genuine(seq(1, 13)...), g.genuine(idR12, idR14, idR15), [][2]int{{w.v(idR13, name), pp[0]}, {w.gvar[idR13], pp[1]}}, g.genuine(14)))
 		}
 		// H. download path: the failing node is deleted from the index while its child stays there
+		// (later descendants are refused with ErrParentBlockNoExist by the nil-fork guard; they used to panic)
 		for ki, name := range sameHashKinds {
 			d := cat(g.genuine(seq(1, 13)...), g.genuine(idR12), [][2]int{{w.v(idR13, name), 2}}, g.genuine(idR14))
 			if (ki+round)%2 == 0 {
